@@ -36,14 +36,26 @@ def exception_for(A, cls, g, n, mu):
 
 
 def retains_in_force(A, cls):
-    import ast
-    owner, v = A.model.lookup(cls, "_flush_buffer")
-    for c in ast.walk(v.func.node):
-        if isinstance(c, ast.Call):
-            for k in c.keywords:
-                if k.arg == "retain_in_force" and isinstance(k.value, ast.Constant) and k.value.value is True:
-                    return True
-    return False
+    """Decided on the automaton of the class-wide flush with force=True (not on a keyword in the source):
+    every collection flushed by force is put back into the set of retained collections before the loop goes on,
+    and a forced flush never removes an entry from the buffer."""
+    key = ("retains_in_force", cls.name)
+    if key in A.cache:
+        return A.cache[key]
+    b_, g = A.graph(cls, "_flush_buffer", "root", "none", recv=Val("cls", (cls,)), args=[Val("const", True)])
+    lv = live(g)
+    heads = [n.id for n in lv if n.kind == "join" and n["what"] == "loop-head" and own(n)]
+    pops = [n for n in lv if n.kind == "cs_write" and n["name"] == "_buffered_collections" and n["op"].startswith("call:pop")]
+    calls = [n for n in lv if is_enter(n, "_flush") and own_child(n)]
+    stores = [n.id for n in lv if n.kind == "local_mut" and n["op"] == "setitem" and own(n)
+              and any(x.kind == "call" and x.args[0] in ("popitem", "pop") for x in n["value"].walk())]
+    # every collection taken out of the registry is stored among the retained ones before the loop takes the next one
+    retained = bool(pops) and bool(calls) and bool(heads) and bool(stores) and all(g.must_pass(y, heads + [g.exit], stores) is None for p_ in pops for (y, l_) in g.succ[p_.id] if l_ != "e")
+    removes = [n for n in lv if n.kind == "cs_write" and n["name"] == "_buffer" and (n["op"] == "delitem" or n["op"] in ("call:pop", "call:popitem", "call:clear") or n["op"] == "rebind")]
+    res = retained and not removes
+    A.cache[key] = res
+    return res
+
 
 META = {
     "level": "other",
